@@ -210,6 +210,49 @@ NOT_YET = {
 }
 
 
+# ---- session 4: second tie per model -- the CURRENT SOURCE regenerated as an AST by a fail-closed translator and proved, in
+# Coq, equal to / in simulation with the hand-written model (DESIGN.md 3.1a).  (text appended, technique suffix)
+TIE2 = {
+    'C08': (' SECOND TIE (every run): translate/pubsub_funs.py regenerates every method of PubSubItem and PubSub as a statement AST '
+            '(Gen/PubSubFuns.v); PubSub/Tie.v, TieBroker.v prove that interpreting the REGENERATED bodies -- one frame per suspended '
+            'subscriber generator -- equals the model step for every well-formed state and operation, hence output-for-output for every '
+            'history (C08_tie_item_histories, C08_tie_broker_histories): the refinement theorems hold of what the source says now.',
+            '; source regenerated by an ast translator and proved equal to the model (interpreter + simulation)'),
+    'C10': (' SECOND TIE (every run): translate/relay_skeleton.py regenerates RunSession.run, relay_events, _monitor, the drain loop, Timer, '
+            'the child\'s wait_until_queue_empty and the event dispatch as statement trees (Gen/RelaySkel.v); Relay/Tie.v proves, by induction over '
+            'every label list, that the interpreter of the regenerated trees is in simulation with Relay/Model.v (C10_tie_simulation), so complete-in-order, '
+            'prefix-on-kill, bracketing and nothing-after-end hold of the code, plus direct corollaries (no get before the previous hook returned; '
+            'on_end_run only after `await task`; sentinel only after the child was awaited).  A component-level harness drives the real relay_events in '
+            'the state "normal exit with events still in the pipe" x slow plugin, which a real run reaches only by luck.',
+            '; source regenerated by an ast translator, simulation proof between the regenerated code and the model'),
+    'C11': (' SECOND TIE (every run): translate/registrars_funs.py regenerates every hook of all nine registrars and the monitor.py dispatch as a '
+            'statement AST (Gen/RegistrarsFuns.v); Registrars/Tie.v proves for ALL registrar states and events that interpreting the regenerated bodies yields '
+            'exactly the state and publication list of the model, and composed in pluggy\'s order a whole run = pubs_run (C11_tie_whole_run).  SYSTEM LEVEL: '
+            'Props/C11System.v (from System/Pipeline.v) composes emitter (C09), relay (C10), registrars (C11) and broker (C08): for every program, schedule, '
+            'relay interleaving and kill point what reaches the hooks is a prefix of the emitted stream and the published state is closed out; tie: the '
+            'registrars inside a real Nextline with the relay held in a slow hook while the run ends (harness/props/c11_system.py).',
+            '; registrar source regenerated and proved equal to the model; end-to-end composition theorems'),
+    'C14': (' SECOND TIE (every run): translate/arg_composer.py genuinely translates RunArgComposer.init/start/reset/compose_run_arg, RunNoCounter, the '
+            'option records and their plumbing in main.py into Gallina (Gen/ArgComposer.v); Life/ArgTie.v proves them EQUAL to the functions Life/Model.v uses, '
+            'for all states and option records (both segments of reset around its nested hook), so every C14 theorem is about what the source says now; '
+            'corollaries: a reset sets exactly the given options (explicit False/0 included) and nothing else, numbers are consecutive from the restart value.',
+            '; composer source genuinely translated and proved equal to the model functions'),
+    'C16': (' SECOND TIE (every run): translate/continuous_skeleton.py regenerates every method of Continue/Continuous and the Nextline methods that touch '
+            'them (Gen/ContinuousSkel.v); Life/ContTie.v proves for ALL environments (any interference at any await, any exception class) that _requested entry / '
+            'refusal / disable / close / on_start_run equal the model\'s functions and that the flag is `counter > 0` unless closed on every exit.',
+            '; continuous.py regenerated and proved equal to the model functions for all environments'),
+    'C18': (' LATE REGISTRATIONS: DoneCb/Late.v proves that a thread whose register() returns after close() was called, while close() still waits for an '
+            'earlier thread that has not been called back, is called back exactly once and waited for too (C18_late_registration_*), with a boundary witness.',
+            '; late-registration invariant'),
+    'C19': (' SECOND TIE (every run): translate/aio_funs.py regenerates merge_aiters, agen_with_wait and to_aiter as statement ASTs (Gen/AioFuns.v); Aio/Tie*.v '
+            'prove that a continuation machine running the REGENERATED bodies, driven by the model\'s own scheduler labels, simulates Aio/Model.v for every label '
+            'list and never gets stuck (C19_tie_merge, C19_tie_agen, C19_tie_to_aiter).',
+            '; source regenerated by an ast translator, simulation proof between the regenerated code and the model'),
+}
+for _k, (_t, _q) in TIE2.items():
+    CLAIMED[_k] = dict(CLAIMED[_k], text=CLAIMED[_k]['text'] + _t, technique=CLAIMED[_k]['technique'] + _q)
+
+
 def main():
     props = [json.loads(l) for l in (V / 'properties.jsonl').read_text().splitlines() if l.strip()]
     checks = []
